@@ -373,11 +373,33 @@ def _narrow_dtype(sig, kind):
     return None
 
 
-def _mk(det, rec):
+def _mk(det, rec, prefill=None):
+    """prefill: loops counted earlier (resumed counting): the owner of the recorder puts them in through the
+    public record_values / record_index before the detector is attached - as the whole numbers they are."""
     try:
-        return DETS[det](recorder=RECS[rec]())
+        r = RECS[rec]()
+        if prefill and rec in ("full", "value"):
+            r.record_values(np.array([int(p[0]) for p in prefill], dtype=np.int64), np.array([int(p[1]) for p in prefill], dtype=np.int64))
+            if rec == "full":
+                r.record_index(np.array([int(p[2]) for p in prefill], dtype=np.uintp), np.array([int(p[3]) for p in prefill], dtype=np.uintp))
+            r.verif_prefill = [[float(x) for x in p] for p in prefill]
+        return DETS[det](recorder=r)
     except Exception as e:     # noqa
         raise RealCodeError("construct " + det, e)
+
+
+def _strip_prefill(r, cols):
+    """cols: {name: list}; takes the prefilled loops off the front and says whether they are still what was put in."""
+    pre = getattr(r, "verif_prefill", None)
+    if not pre:
+        return True
+    k = len(pre)
+    ok = True
+    for j, name in enumerate(("from", "to", "ifrom", "ito")):
+        if name in cols:
+            ok = ok and cols[name][:k] == [p[j] for p in pre]
+            cols[name] = cols[name][k:]
+    return ok
 
 
 def _feed(d, chunk, flush=False):
@@ -404,6 +426,8 @@ def observe(d, det, rec):
             if rec in ("full", "probe", "lazy", "cascade"):
                 o["ifrom"] = [float(x) for x in r.index_from]
                 o["ito"] = [float(x) for x in r.index_to]
+        if not _strip_prefill(r, o):
+            o["protocol"] = ["prefilled-loops-changed"]
         if rec == "cascade" and det != "fkm":
             o["lookups"] = [list(x) for x in r.lookups]
         if rec in ("probe", "cascade"):
@@ -426,6 +450,7 @@ def collective_consistent(d, o, rec):
         if rec == "full":
             got["ifrom"] = [float(x) for x in c["index_from"].to_numpy()]
             got["ito"] = [float(x) for x in c["index_to"].to_numpy()]
+        _strip_prefill(d.recorder, got)
     except Exception as e:     # noqa
         raise RealCodeError("collective", e)
     for k, v in got.items():
@@ -469,6 +494,9 @@ def generate(prop, rng, tier):
         reps.append({"det": det, "rec": rng.choice(["full", "full", "value", "probe", "lazy", "cascade"]),
                      "cuts": gen_cuts(rng, sig),
                      "container": rng.choice(["ndarray", "ndarray", "ndarray", "list", "series", "strided", "readonly", "int", "int", "f32", "mixed"])})
+    for rp in reps:
+        if rp["rec"] in ("full", "value") and rng.random() < 0.15:
+            rp["prefill"] = [[rng.randint(-9, 9), rng.randint(-9, 9), rng.randint(0, 50), rng.randint(0, 50)] for _ in range(rng.randint(1, 3))]
     order = []
     for r, rp in enumerate(reps):
         order += [r] * (len(rp["cuts"]) + 1)
@@ -533,7 +561,9 @@ def _execute(prop, trace):
         state.append({"d": None, "bounds": bounds, "k": 0, "delivered": [], "dead": False})
     try:
         for st, rp in zip(state, reps):
-            st["d"] = _mk(rp["det"], rp["rec"])
+            st["d"] = _mk(rp["det"], rp["rec"], rp.get("prefill"))
+            if rp.get("prefill") and rp["rec"] in ("full", "value"):
+                out.count("history:recorder_prefilled_with_stored_loops")
     except RealCodeError as e:
         out.violate("exception", e.where, {"type": e.exc_type, "msg": e.msg})
         out.digest = log.digest()
@@ -1302,6 +1332,11 @@ def shrink(prop, trace):
             if trace.get(key):
                 t = copy.deepcopy(trace)
                 t[key] = False
+                yield t
+        for r in range(len(reps)):
+            if reps[r].get("prefill"):
+                t = copy.deepcopy(trace)
+                del t["replicas"][r]["prefill"]
                 yield t
         # 2. delete sample blocks
         size = n // 2
